@@ -376,6 +376,28 @@ pub trait Scheme: 'static + Sized {
     type PC: PolynomialCommitment<Self::F, Self::P>;
     const FAMILY: Family;
     fn name() -> String;
+
+    // ---- scheme-specific surgery used by the fault catalogue (default: not available) ----
+    /// the commitment with its degree-bound part removed
+    fn comm_without_shifted(_c: &Comm<Self>) -> Option<Comm<Self>> {
+        None
+    }
+    /// the commitment `c` carrying the degree-bound part of `o`
+    fn comm_with_shifted_of(_c: &Comm<Self>, _o: &Comm<Self>) -> Option<Comm<Self>> {
+        None
+    }
+    /// every single-component replacement / shape mutation of a proof: (name, mutated proof)
+    fn proof_variants(_p: &Proof<Self>, _seed: u64) -> Vec<(String, Proof<Self>)> {
+        vec![]
+    }
+    /// every single-element replacement of a commitment
+    fn comm_variants(_c: &Comm<Self>, _seed: u64) -> Vec<(String, Comm<Self>)> {
+        vec![]
+    }
+    /// every single-element replacement of a verifier key
+    fn vk_variants(_vk: &Vk<Self>, _seed: u64) -> Vec<(String, Vk<Self>)> {
+        vec![]
+    }
 }
 
 pub type PcOf<S> = <S as Scheme>::PC;
@@ -438,6 +460,12 @@ where
     fn name() -> String {
         format!("marlin-{}", E::CURVE)
     }
+    fn comm_without_shifted(c: &Comm<Self>) -> Option<Comm<Self>> {
+        c.shifted_comm.map(|_| ark_poly_commit::marlin_pc::Commitment { comm: c.comm, shifted_comm: None })
+    }
+    fn comm_with_shifted_of(c: &Comm<Self>, o: &Comm<Self>) -> Option<Comm<Self>> {
+        o.shifted_comm.map(|s| ark_poly_commit::marlin_pc::Commitment { comm: c.comm, shifted_comm: Some(s) })
+    }
 }
 pub struct SonicS<E>(PhantomData<E>);
 impl<E: Pairing + CurveName> Scheme for SonicS<E>
@@ -466,6 +494,12 @@ where
     const FAMILY: Family = Family::Ipa;
     fn name() -> String {
         format!("ipa-{}", G::CURVE)
+    }
+    fn comm_without_shifted(c: &Comm<Self>) -> Option<Comm<Self>> {
+        c.shifted_comm.map(|_| ark_poly_commit::ipa_pc::Commitment { comm: c.comm, shifted_comm: None })
+    }
+    fn comm_with_shifted_of(c: &Comm<Self>, o: &Comm<Self>) -> Option<Comm<Self>> {
+        o.shifted_comm.map(|s| ark_poly_commit::ipa_pc::Commitment { comm: c.comm, shifted_comm: Some(s) })
     }
 }
 pub struct Pst13S<E>(PhantomData<E>);
